@@ -6,6 +6,7 @@ constant oracle "no panic, no abort, no timeout, allocation within 64 MiB + 64*l
 import os, sys
 sys.path.insert(0, os.path.join(os.path.dirname(os.path.dirname(os.path.abspath(__file__))), "models"))
 import pe as _pe
+import pgp as _pgp
 
 TIE = "corr:c11"
 TIE_THEOREM = ("Relic.Model.{PE,ApkBlock,CsBlob,Binpatch} vs lib/authenticode, signers/apk, lib/fruit/csblob, lib/signxap, lib/binpatch "
@@ -55,6 +56,8 @@ def _tok(op):
 def canon_model(op, mres):
     if _tok(op) == "PE":
         return _pe.canon_model(op, mres)
+    if _tok(op) == "PGP":
+        return _pgp.canon_model(op, mres)
     return mres
 
 
@@ -69,6 +72,8 @@ def agree(op, il, mres, tag):
     t = _tok(op)
     if t == "PE":
         return _pe.equiv(op, il, mres)
+    if t == "PGP":
+        return _pgp.equiv(op, il, mres)
     if t == "C11":
         return mres == "safe" and il in ("ok", "err")
     if t in MODEL_TOKENS:
@@ -94,6 +99,8 @@ def nontrivial(op, mres, tag):
     t = _tok(op)
     if t == "PE":
         return _pe.nontrivial(op, mres, tag)
+    if t == "PGP":
+        return _pgp.nontrivial(op, mres, tag)
     if t == "C11":
         f = op.split(" ")
         return len(f) == 5 and (f[4] != "-" or f[3].startswith(("hex:", "appxpe:", "tx:")))
@@ -104,6 +111,8 @@ def branch(op, mres, tag):
     t = _tok(op)
     if t == "PE":
         return _pe.branch(op, mres, tag)
+    if t == "PGP":
+        return _pgp.branch(op, mres, tag)
     f = op.split(" ")
     if t == "C11":
         return "%s:%s" % (f[1], f[2])
@@ -125,6 +134,8 @@ def predicate(op, il, mres, tag):
         if r is None and il.startswith(("abort", "timeout", "alloc", "harness-error")):
             return ("Relic.Props.C11 (pe %s)" % il.split(" ")[0], mres, "PE parser: " + il)
         return r
+    if t == "PGP" and not il.startswith(BAD):
+        return _pgp.predicate("C11", op, il, mres, tag)
     if il.startswith(BAD) or (t == "C11" and il not in ("ok", "err")):
         what = il.split(" ")[0]
         names = {"panic": "no_panic", "abort": "no_process_abort", "timeout": "terminates", "alloc": "alloc_bounded"}
@@ -135,6 +146,8 @@ def predicate(op, il, mres, tag):
 
 def matches_known(k, op, il, mres, tag):
     """identity = outcome class + site (function named by the harness); timeouts have no site: identity = outcome + entry point"""
+    if _tok(op) == "PGP":
+        return _pgp.matches_known(k, op, il, mres, tag)
     ident = k.get("identity", {})
     site, outcome = ident.get("site", ""), ident.get("outcome", "panic")
     if not site:
